@@ -47,6 +47,8 @@ func main() {
 	switch os.Args[1] {
 	case "check":
 		os.Exit(cmdCheck(os.Args[2:]))
+	case "checkall":
+		os.Exit(cmdCheckAll(os.Args[2:]))
 	case "explain":
 		os.Exit(cmdExplain(os.Args[2:]))
 	case "dump":
@@ -253,4 +255,67 @@ func k0(known []KnownEntry, id, key string) string {
 		}
 	}
 	return ""
+}
+
+// cmdCheckAll runs every registered property's rules on one load of the repository and prints, per
+// property, the same finding lines as `check --no-evidence` between "=== Cnn exit=N" markers. It is
+// what the measurement scripts (seedcheck.py, refcheck.py) use: twenty separate loads dominate
+// their run time. It writes no evidence and is not registered in MANIFEST.json.
+func cmdCheckAll(args []string) int {
+	p, err := Load(repoDir())
+	if err != nil {
+		fmt.Printf("UNDECIDED load: %v\n", err)
+		return 1
+	}
+	ids := []string{}
+	for k := range registry {
+		ids = append(ids, k)
+	}
+	sort.Strings(ids)
+	known := loadKnown(verifDir())
+	worst := 0
+	for _, id := range ids {
+		prop := registry[id]()
+		var lines []string
+		n := 0
+		func() {
+			defer func() {
+				if r := recover(); r != nil {
+					n++
+					lines = append(lines, fmt.Sprintf("UNDECIDED rule=%s-panic at - in : %v", id, r))
+				}
+			}()
+			c := &Ctx{P: p, Prop: id, Tier: "quick"}
+			for _, r := range prop.Rules {
+				c.RunRule(r)
+			}
+			printed := map[string]bool{}
+			for _, f := range c.Findings {
+				isKnown := false
+				for _, k := range known {
+					if k.Property == id && k.Status == "known" && k.Key == f.Key {
+						isKnown = true
+					}
+				}
+				if isKnown {
+					if !printed[f.Key] {
+						printed[f.Key] = true
+						lines = append(lines, fmt.Sprintf("KNOWN-FINDING: property=%s %s", id, k0(known, id, f.Key)))
+					}
+					continue
+				}
+				n++
+				lines = append(lines, fmt.Sprintf("%s rule=%s at %s in %s: %s", strings.ToUpper(f.Kind), f.Rule, f.Pos, f.Func, firstLine(f.Msg)))
+			}
+		}()
+		ex := 0
+		if n > 0 {
+			ex, worst = 1, 1
+		}
+		fmt.Printf("=== %s exit=%d\n", id, ex)
+		for _, l := range lines {
+			fmt.Println(l)
+		}
+	}
+	return worst
 }
